@@ -191,11 +191,11 @@ theorem C04_arm_convStrict (ext : Ext F) (s : Scalar) (t : NumT) (v : GoVal F)
     · simp [hf, checkIn, GoVal.kind, Scalar.inKind]
     · simp [hf, checkIn]
 
-theorem C04_arm_parseFloatFinite (ext : Ext F) (s : Scalar) (v : GoVal F)
-    (hs : armSoundIn s v.kind .parseFloatFinite = true) (hw : v.wf = true) :
-    checkIn ext s v (applyAction ext .parseFloatFinite v) = true := by
+theorem C04_arm_parseFloatFinite (ext : Ext F) (s : Scalar) (t : NumT) (v : GoVal F)
+    (hs : armSoundIn s v.kind (.parseFloatFinite t) = true) (hw : v.wf = true) :
+    checkIn ext s v (applyAction ext (.parseFloatFinite t) v) = true := by
   simp only [armSoundIn, Bool.and_eq_true, beq_iff_eq] at hs
-  obtain ⟨hk, rfl⟩ := hs
+  obtain ⟨⟨hk, rfl⟩, rfl⟩ := hs
   cases v with
   | str str =>
     simp only [applyAction]
@@ -203,7 +203,7 @@ theorem C04_arm_parseFloatFinite (ext : Ext F) (s : Scalar) (v : GoVal F)
     | none => simp [checkIn]
     | some x =>
       by_cases hf : ext.isFinite x = true
-      · simp [hf, checkIn, GoVal.kind, Scalar.inKind]
+      · simp [hf, checkIn, GoVal.kind, Scalar.inKind, NumT.kind]
       · simp [hf, checkIn]
   | int k n => simp only [GoVal.kind] at hk; subst hk; simp [GoVal.wf, kindRange] at hw
   | flt k x => simp only [GoVal.kind] at hk; subst hk; simp [GoVal.wf, Kind.isFloat] at hw
@@ -231,7 +231,7 @@ theorem C04_arm (ext : Ext F) (laws : ExtLaws ext) (s : Scalar) (a : Action) (v 
   | symStr => exact C04_arm_symStr ext s v hs hw
   | convStrict t => exact C04_arm_convStrict ext s t v hs hw
   | parseInt32Keep => simp [armSoundIn] at hs
-  | parseFloatFinite => exact C04_arm_parseFloatFinite ext s v hs hw
+  | parseFloatFinite t => exact C04_arm_parseFloatFinite ext s t v hs hw
   | fmtUint => simp [armSoundIn] at hs
 
 /-- **C04_leaf.**  Table level: whatever arm the regenerated `CoerceIn` table selects for the supplied
